@@ -1,6 +1,7 @@
 /- protocol handler for the registry state machine (glue) -/
 import PyOak.Decode
 import PyOak.Model.Registry
+import PyOak.Model.RegistrySer
 namespace PyOak
 open Sexp
 
@@ -53,17 +54,29 @@ def stateDump (s : RState) (gets : List Sexp) : List Sexp :=
     | _ => sym "bad"
   [app "reg" (reg.map fun e => .list [ofStr e.1, ofNat e.2]), app "live" (live.map ofNat), app "gets" g]
 
-/-- `(registry-history (op <op> (gets …))…)` -/
+partial def encodeSer : SerTree → Sexp
+  | .mk sid cls mro kids =>
+    .list (.atom "st" :: ofStr sid :: ofStr cls :: .list (mro.map ofStr) :: kids.map encodeSer)
+
+/-- `(registry-history (op <op> (gets …) [(serof tok)])…)`; with `(serof tok)` the answer of the step
+carries `(serof <st>)`: the model's serializer `RState.serOf` applied to object `tok` in the state
+BEFORE the step (tie of `serOf` to the real `as_dict`) -/
 def handleRegistry (args : List Sexp) : Option Sexp := do
   let steps := args.filterMap fun a => match a with
-    | .list (.atom "op" :: o :: r) => some (o, (field? r "gets").getD [])
+    | .list (.atom "op" :: o :: r) =>
+      some (o, (field? r "gets").getD [], (match field? r "serof" with
+                                           | some [t] => asNat? t
+                                           | _ => none))
     | _ => none
-  let (_, outs) := steps.foldl (fun (acc : RState × List Sexp) (st : Sexp × List Sexp) =>
+  let (_, outs) := steps.foldl (fun (acc : RState × List Sexp) (st : Sexp × List Sexp × Option Nat) =>
     match decodeROp st.1 with
     | none => (acc.1, acc.2 ++ [app "bad-request" []])
     | some op =>
       let (s', out) := acc.1.step op
-      (s', acc.2 ++ [.list (outSexp out :: stateDump s' st.2)])) (({} : RState), [])
+      let ser := match st.2.2 with
+        | some tok => [app "serof" [encodeSer (acc.1.serOf acc.1.heap.length tok)]]
+        | none => []
+      (s', acc.2 ++ [.list (outSexp out :: stateDump s' st.2.1 ++ ser)])) (({} : RState), [])
   pure (.list outs)
 
 end PyOak
